@@ -27,7 +27,7 @@ META = {
     'bounds': {
         'quick': '0..3 line crops with symbolic widths in [1, 600*b], batch size b symbolic in 1..16, sub-sampling 4, padding 32; dense logits, '
                  'tight-crop and no-logits modes; sparse storage on one frame of 3 logits (frames are independent in softmax(axis=1))',
-        'thorough': '0..4 line crops (4 only in the dense flavour); sparse storage on one frame of 2..4 logits',
+        'thorough': '0..3 line crops in all three flavours; sparse storage on one frame of 2..4 logits',
     },
     'assumptions': [
         'the network output for a batch row depends only on the image placed in that row, its offset and the part of it inside the tensor '
@@ -45,11 +45,13 @@ H_PX = 16
 
 def tasks(tier):
     ts = []
-    nmax = 3 if tier == 'quick' else 4
+    # four lines were measured and are not scheduled: single sub-tasks of the dense flavour ran past 40 minutes (the batch-size
+    # arithmetic with four symbolic widths), the whole tier past 90
+    nmax = 3
     for n in range(0, nmax + 1):
         for mode in ('dense', 'tight', 'nologits'):
-            if n == nmax and mode in ('nologits', 'tight'):
-                continue        # the largest batch only in the dense flavour (thorough: 4 lines x 3 flavours did not finish in 90 minutes)
+            if n == nmax and mode in ('nologits', 'tight') and tier == 'quick':
+                continue        # quick: the largest batch only in the dense flavour
             t = {'mode': 'batch', 'n': n, 'flavour': mode}
             if n >= 3:
                 t['split'] = 32
